@@ -634,6 +634,9 @@ func init() {
 	})
 	RegisterIntrinsic("strconv.ParseInt", func(x *Exec, s *State, c *CallCtx) Value {
 		base, bits := c.Args[1].(*Term), c.Args[2].(*Term)
+		if cs, ok := x.concreteStr(c.Args[0].(*StrVal)); ok && base.IsConst() && bits.IsConst() {
+			return x.parseIntConcrete(s, cs, int(base.K), int(bits.K))
+		}
 		if !base.IsConst() || base.K != 10 || !bits.IsConst() {
 			x.fail("strconv.ParseInt: only base 10 with a constant bit size is supported")
 		}
